@@ -1,4 +1,5 @@
 import CTV.Model.Scan
+import CTV.Gen.Migrate
 /-!
 # Migration pass (trillian/migrillian/core/controller.go `fetchTail`, trillian.go `addSequencedLeaves`)
 
@@ -140,5 +141,10 @@ def gate (noCheck : Bool) (treeSize sthSize begin : Nat) (proofOk : Bool) : Gate
   else if treeSize = 0 then .proceed
   else if noCheck then .proceed
   else if proofOk then .proceed else .refused
+
+/-- The submitter's reaction to ResourceExhausted **as the code has it** (regenerated from trillian.go): the `switch` on the
+gRPC code asks for a retry, *and* the error value it returns for that is one `backoff.Retry` recognises as retryable. -/
+def codeRetriesQuota : Bool :=
+  (Gen.retryTable.lookup 8 == some 1) && Gen.errRetryIsRetriable
 
 end CTV.Model.Migrate
